@@ -16,13 +16,15 @@ def register(K):
     # frame contract of *any* opcode run (behavioural supertype; every concrete run is verified against it):
     # it writes only the interpreter's own state, list objects (in-place APPEND/ADDITEMS on list nodes) and line numbers
     K.contract("fickle.Opcode.run", params="self: fickle.Opcode, interpreter: fickle.Interpreter", returns="val",
-               modifies=RUN_FRAME, may_raise=ERR, exact_raises=False, ensures=[],
+               modifies=RUN_FRAME, may_raise=ERR, exact_raises=False,
+               ensures=["interpreter._var_counter >= old(interpreter._var_counter)"],       # variable numbers are never re-used (C18)
                logs=[("opcode-run", ["self", "interpreter"])])
 
     K.contract("fickle.Pickled.__iter__", params="self: fickle.Pickled", returns="iterator[fickle.Opcode]", ensures=["iterates(result, self._opcodes)", "fresh_since_entry(result)"])
     K.contract("fickle.Pickled.__len__", params="self: fickle.Pickled", returns="int", pure=True, ensures=["result == len(self._opcodes)"])
     K.contract("fickle.Pickled.__getitem__", params="self: fickle.Pickled, index: val", returns="val", pure=True,
                raises={"IndexError": "index_out_of_range(index, len(self._opcodes))"}, ensures=["getitem_eq(result, self._opcodes, index)"])
+    K.contracts["fickle.Pickled.__getitem__"].returns_for_index = "fickle.Opcode"
 
     @K.spec("iterates")
     def iterates(eng, st, it, lst):
@@ -43,16 +45,17 @@ def register(K):
     K.contract("fickle.Interpreter.step", params="self: fickle.Interpreter", returns="fickle.Opcode",
                modifies=STEP_FRAME, may_raise=ERR + ["StopIteration"], exact_raises=False,
                logs=[("step", ["self", "result"])],
-               ensures=["stepped(self, old(self._opcodes), result)"],
-               ensures_raise={"StopIteration": ["self._module is not None", "module_has_whole_body(self._module, self.module_body._list)"]},
+               ensures=["stepped(self, old(self._opcodes), result)", "self._var_counter >= old(self._var_counter)"],
+               ensures_raise={"StopIteration": ["self._module is not None", "module_has_whole_body(self._module, self.module_body._list)",
+                                                "self._var_counter >= old(self._var_counter)"]},
                loops={0: dict(invariant=[], modifies=["@ast.lineno", "@ast.col_offset"])})
     K.contract("fickle.Interpreter.run", params="self: fickle.Interpreter", modifies=STEP_FRAME, may_raise=ERR, exact_raises=False,
-               ensures=["self._module is not None"],
-               loops={0: dict(invariant=[], modifies=STEP_FRAME)})
+               ensures=["self._module is not None", "self._var_counter >= old(self._var_counter)"],
+               loops={0: dict(invariant=["self._var_counter >= old(self._var_counter)"], modifies=STEP_FRAME)})
     K.contract("fickle.Interpreter.to_ast", params="self: fickle.Interpreter", returns="val", modifies=STEP_FRAME, may_raise=ERR,
                exact_raises=False,
                ensures=["result is self._module", "result is not None",
-                        "implies(old(self._module) is not None, result is old(self._module))"],
+                        "implies(old(self._module) is not None, result is old(self._module))", "self._var_counter >= old(self._var_counter)"],
                logs=[("to_ast", ["self"])])
     K.contract("fickle.Interpreter.interpret", params="pickled: fickle.Pickled", returns="val", may_raise=ERR, exact_raises=False,
                modifies=["@list.items:nodeowned", "@ast.lineno", "@ast.col_offset", "@iterator.pos"], ensures=["result is not None"])
@@ -88,8 +91,9 @@ def register(K):
                          "self.interpreter._var_counter", "self.interpreter._opcodes", "self.interpreter.stack.opcode",
                          "self.interpreter._module", "@list.items:nodeowned", "@ast.lineno", "@ast.col_offset", "@iterator.pos"],
                may_raise=ERR, exact_raises=False,
-               ensures=["result is self.interpreter._module", "result is not None"],
-               loops={0: dict(invariant=["self.interpreter is old(self.interpreter)"],
+               ensures=["result is self.interpreter._module", "result is not None",
+                        "self.interpreter._var_counter >= old(self.interpreter._var_counter)"],
+               loops={0: dict(invariant=["self.interpreter is old(self.interpreter)", "self.interpreter._var_counter >= old(self.interpreter._var_counter)"],
                               modifies=["self.interpreter.stack._stack[]", "self.interpreter.memory[]", "self.interpreter.module_body._list[]",
                                         "self.interpreter._var_counter", "self.interpreter._opcodes", "self.interpreter.stack.opcode",
                                         "self.interpreter._module", "@list.items:nodeowned", "@ast.lineno", "@ast.col_offset", "@iterator.pos"]),
